@@ -23,7 +23,8 @@ DEC_ROLES = {
     "ASCIIHexDecode": ("hex", lambda ns: "enc::decode_nibble" in ns),
     "ASCII85Decode": ("a85", lambda ns: "enc::word_85" in ns or "enc::sym_85" in ns),
     "LZWDecode": ("lzw", lambda ns: any(n.startswith("weezl::decode") for n in ns)),
-    "FlateDecode": ("flate", lambda ns: any("libflate::zlib::Decoder" in n or "libflate::deflate::Decoder" in n for n in ns)),
+    # both framings the property names: zlib (RFC 1950) and, as the fallback, raw deflate
+    "FlateDecode": ("flate", lambda ns: any("libflate::zlib::Decoder" in n for n in ns) and any("libflate::deflate::Decoder" in n for n in ns)),
     "DCTDecode": ("dct", lambda ns: any(n.startswith("jpeg_decoder::") for n in ns)),
     "RunLengthDecode": ("runlength", None),
 }
@@ -134,6 +135,11 @@ def rule_chain(ctx, f):
         loops = cfg.loops()
         for bi, t in ds:
             if not any(bi in blk for blk in loops.values()):
+                # a single application: fine for one given filter, not for an element picked out of the stream's filter list
+                fa = arg_local(t, 1)
+                picks = sorted({last_seg(a[1]) for a in fl.origins(fa) if a[0] == "call" and last_seg(a[1]) in ("first", "last", "get", "index", "next", "iter", "into_iter")}) if fa is not None else []
+                ctx.check(not picks, "C05-G-chain", b["id"] + "#whole-chain", "enc::decode is applied once, to a filter picked out of a list (%s), and not in a loop over the "
+                          "list: the rest of the chain is never applied" % ", ".join(picks), t["span"], detail="every filter of the list is applied")
                 continue
             n += 1
             fl_arg = arg_local(t, 1)
@@ -147,7 +153,7 @@ def rule_chain(ctx, f):
             from_prev = any(a[0] == "call" and a[1] == "enc::decode" for a in dats)
             ctx.check(from_prev, "C05-G-chain", b["id"] + "#threaded",
                       "a filter is not applied to the previous filter's output", t["span"], detail="data = decode(&data, filter)")
-    ctx.floor("C05-G-chain", n, 2, "filter loops (Storage::decode, Stream::data)")
+    ctx.floor("C05-G-chain", n, 3, "filter loops (Storage::decode, Stream::data, raw_image_data)")
 
 
 def rule_pairing(ctx, f):
@@ -244,6 +250,30 @@ def rule_bytes(ctx, f):
         pads = [bi for bi, t in F.calls(hb) if last_seg(F.callee_name(t)) in ("push", "extend_from_slice", "resize") and
                 any(F.const_int(a) == 48 or F.const_bytes(a) == "0" for a in t["args"])]
         ok = bool(parity) and bool(pads) and all(any(cfg.dominates(q, pd) for q in parity) for pd in pads)
+        # ... on the ODD side of the test
+        hfl = Flow(hb)
+        sided = False
+        for i, bb in enumerate(hb["blocks"]):
+            tt = bb["term"]
+            if tt["k"] != "switch":
+                continue
+            for st in bb["stmts"]:
+                if st[0] == "assign" and st[2][0] == "binop" and st[2][1] in ("Eq", "Ne") and F.op_local(tt["discr"]) == st[1][0]:
+                    k = F.const_int(st[2][3]) if F.const_int(st[2][3]) is not None else F.const_int(st[2][2])
+                    o = st[2][2] if F.const_int(st[2][3]) is not None else st[2][3]
+                    l = F.op_local(o)
+                    if k not in (0, 1) or l is None or not any(a[0] == "binop" and a[1] in ("Rem", "BitAnd") for a in hfl.origins(l, passthrough=())):
+                        continue
+                    arms = {a[0]: a[1] for a in tt["arms"]}
+                    true_t = arms.get(1, tt.get("otherwise")) if 0 in arms else None
+                    false_t = arms.get(0, tt.get("otherwise"))
+                    if true_t is None:
+                        true_t = tt.get("otherwise")
+                    odd_t = true_t if (st[2][1], k) in (("Eq", 1), ("Ne", 0)) else false_t
+                    even_t = false_t if odd_t == true_t else true_t
+                    if all((pd == odd_t or pd in cfg.reachable_from(odd_t, avoid={i})) and not (pd == even_t or pd in cfg.reachable_from(even_t, avoid={i})) for pd in pads):
+                        sided = True
+        ok = ok and sided
         ctx.check(ok, "C05-TABLE", "enc::decode_hex#odd-digit", "an odd final hex digit is not padded with 0 (7.4.2)", hb["span"],
                   detail="parity test dominates a push of '0'")
     # --- ascii85
@@ -288,6 +318,13 @@ def rule_bytes(ctx, f):
             names = [last_seg(F.callee_name(tt)) for r, tt in region_calls(db, reg | {tg})]
             okz = "extend_from_slice" in names and "word_85" not in names
             # z is read as the FIRST symbol of a group only: the switch's subject comes from the first next() of an iteration
+        w85 = f.body("enc::word_85")
+        if w85 is None:
+            ctx.lost("C05-TABLE", "enc::word_85")
+        else:
+            bo = [last_seg(F.callee_name(tt)) for _, tt in F.calls(w85) if last_seg(F.callee_name(tt)) in ("to_be_bytes", "to_le_bytes", "to_ne_bytes")]
+            ctx.check(bo == ["to_be_bytes"], "C05-TABLE", "enc::word_85#byte-order", "the four bytes of an ASCII85 group are produced with %s (the format is big-endian: most "
+                      "significant byte first)" % bo, w85["span"], detail="to_be_bytes")
         ctx.check(okz, "C05-TABLE", "enc::decode_85#z", "`z` is not expanded to four zero bytes at a group boundary", db["span"], detail="'z' -> [0;4], other positions reject it (sym_85)")
         ctx.check(gt is not None, "C05-TABLE", "enc::decode_85#eod2", "`~` is not required to be followed by `>`", db["span"], detail="'~' must be followed by '>'")
         # a short final group is completed with the highest digit `u` (84): the constants the decoder fills five-digit groups with
@@ -421,6 +458,28 @@ def rule_predictor(ctx, f):
     ctx.check(not tiff_same or bool(tiff_calls), "C05-TABLE-pred", "enc::flate_decode#tiff-predictor",
               "Predictor 2 (TIFF) takes the same path as Predictor 1 (no prediction): TIFF-predicted data is returned un-reconstructed",
               b["span"], detail="Predictor 2 handled")
+    # which buffers the row filter is handed: the encoded row comes out of the inflated data (as the tag byte does), the previous row and
+    # the output row out of the buffers allocated here
+    bfl = Flow(b)
+    PT = ("index", "index_mut", "deref", "deref_mut", "as_slice", "as_mut_slice", "split_at_mut", "split_at", "branch", "unwrap", "into_result")
+    tag_roots = set()
+    for bi, t in F.calls(b):
+        if last_seg(F.callee_name(t)) == "from_u8":
+            l = F.op_local(t["args"][0])
+            tag_roots |= {(x[1], x[2]) for x in bfl.origins(l, passthrough=PT) if x[0] == "call" and last_seg(x[1]) not in PT + ("checked_mul", "checked_add")} if l is not None else set()
+    for bi, t in F.calls(b):
+        if last_seg(F.callee_name(t)) != "unfilter" or len(t["args"]) < 5:
+            continue
+        roots = []
+        for k in (2, 3, 4):
+            l = F.op_local(t["args"][k])
+            roots.append({(x[1], x[2]) for x in bfl.origins(l, passthrough=PT) if x[0] == "call" and last_seg(x[1]) not in PT + ("checked_mul", "checked_add")} if l is not None else set())
+        prev_r, inp_r, out_r = roots
+        ok = bool(tag_roots) and bool(inp_r & tag_roots) and not (prev_r & tag_roots) and not (out_r & tag_roots) and not (inp_r & out_r)
+        ctx.check(ok, "C05-TABLE-pred", "enc::flate_decode#row-buffers", "the row filter is not given (previous output row, encoded row, output row): the encoded-row argument "
+                  "%s the inflated data, the previous-row argument %s" % ("comes from" if inp_r & tag_roots else "does not come from",
+                                                                          "comes from the inflated data" if prev_r & tag_roots else "is fine"), t["span"],
+                  detail="unfilter(tag, bpp, prev <- out/zeros, inp <- inflated, out <- out)")
     # unfilter reads
     ub = f.body("enc::unfilter")
     if ub is None:
@@ -470,6 +529,30 @@ def rule_predictor(ctx, f):
                 for a in base:
                     if a in argname:
                         reads.add((argname[a], "i-bpp" if isub else "i"))
+        if vn == "Paeth":
+            # the predictor's arguments are (left, up, upper-left) in this order: ties are broken in favour of the first, then the second
+            shapes = []
+            for r in sorted(reg):
+                tt = ub["blocks"][r]["term"]
+                if tt["k"] == "call" and last_seg(F.callee_name(tt)) == "filter_paeth" and len(tt["args"]) == 3:
+                    sh = []
+                    for a0 in tt["args"]:
+                        l0 = F.op_local(a0)
+                        got = None
+                        for d0 in fl.defs.get(l0, []) if l0 is not None else []:
+                            if d0[0] == "assign" and d0[2][0] == "use":
+                                p3 = F.op_place(d0[2][1])
+                                idx3 = [e for e in (p3 or [])[1:] if e[0] == "index"]
+                                if p3 and idx3:
+                                    base3 = {a[1] for a in fl.origins(p3[0]) if a[0] == "arg"}
+                                    sub3 = any(a[0] == "binop" and a[1].startswith("Sub") for a in fl.origins(idx3[0][1], passthrough=()))
+                                    got = (sorted(argname.get(x, "?") for x in base3)[0] if base3 else "?", "i-bpp" if sub3 else "i")
+                        sh.append(got if got else ("const", F.const_int(a0)))
+                    shapes.append(sh)
+            full = [x for x in shapes if all(y[0] != "const" for y in x)]
+            ctx.check(bool(full) and all(x == [("out", "i-bpp"), ("prev", "i"), ("prev", "i-bpp")] for x in full), "C05-TABLE-pred", "enc::unfilter#Paeth-order",
+                      "the Paeth predictor is called with %s (PNG: left = out[i-bpp], up = prev[i], upper-left = prev[i-bpp], in this order - ties go to the "
+                      "earlier argument)" % full, ub["span"], detail="filter_paeth(left, up, upper-left)")
         ctx.check(reads == want[vn], "C05-TABLE-pred", "enc::unfilter#" + vn,
                   "row filter %s reads %s, PNG specifies %s" % (vn, sorted(reads), sorted(want[vn])), ub["span"],
                   detail="%s reads %s" % (vn, sorted(want[vn])))
@@ -535,6 +618,34 @@ def rule_use(ctx, f, known_only=False):
                       b["span"], detail="/%s is read" % names[fld])
 
 
+def rule_lzw_variant(ctx, f):
+    ctx.rule("C05-TABLE-lzw", "LZW decoder: EarlyChange 0 selects the plain code-size switch, every other value (the default is 1) the early one")
+    import c16
+    db = f.body("enc::lzw_decode")
+    if db is None:
+        ctx.lost("C05-TABLE-lzw", "enc::lzw_decode")
+        return
+    da = c16._weezl_ctor_args(db, "decode")
+    if not ctx.floor("C05-TABLE-lzw", len(da), 2, "weezl decoder constructions"):
+        return
+
+    def subj(e):
+        return isinstance(e, tuple) and e[0] == "field" and e[2] == "early_change"
+    stops = {c[0] for c in da}
+    res = {}
+    for S, path in classify(db, subj, stops=stops):
+        last = [x for x in path if x >= 0][-1]
+        for c in da:
+            if c[0] == last:
+                res.setdefault(c[1], set()).update(S)
+    early = res.get("with_tiff_size_switch", set())
+    plain = res.get("new", set())
+    vals = lambda S: {x for x in S if isinstance(x, int)}
+    ok = 0 in vals(plain) and 0 not in vals(early) and 1 in vals(early) and 1 not in vals(plain)
+    ctx.check(ok, "C05-TABLE-lzw", "enc::lzw_decode#early-change", "EarlyChange %s selects the early code-size switch and %s the plain one (spec: 0 -> plain, 1 (default) -> early)"
+              % (fmt_set(vals(early)), fmt_set(vals(plain))), db["span"], detail="EarlyChange != 0 -> early switch")
+
+
 def run(ctx):
     f = F.load("default")
     ctx.count("bodies", len(f.bodies))
@@ -544,6 +655,7 @@ def run(ctx):
     rule_pairing(ctx, f)
     rule_bytes(ctx, f)
     rule_predictor(ctx, f)
+    rule_lzw_variant(ctx, f)
     rule_use(ctx, f)
     return ctx.finish(
         "Static analysis of MIR facts of enc.rs / stream.rs / file.rs. Tables are extracted from the program: string-match arms "
